@@ -345,11 +345,40 @@ func TbsCheck(t *testsmellgen.Tree, observed []TbsFinding, relOf func(fileName s
 	}
 	// test classes whose simple name is used by a test class of another package as well
 	sharedName := TbsSharedClassNames(t)
-	nameNote := func(f *testsmellgen.File, sig string) string {
-		if sharedName[f.Class] && (strings.HasPrefix(sig, "unknowntest-") || strings.HasPrefix(sig, "duplicateasserttest-")) {
-			return sig + "+class-name-also-used-in-another-package"
+	asserts := func(h *testsmellgen.Method) bool {
+		for _, c := range h.Calls {
+			if c.Kind == testsmellgen.KindAssert {
+				return true
+			}
 		}
-		return sig
+		return false
+	}
+	nameNote := func(f *testsmellgen.File, m *testsmellgen.Method, sig string) string {
+		if !sharedName[f.Class] || !(strings.HasPrefix(sig, "unknowntest-") || strings.HasPrefix(sig, "duplicateasserttest-")) {
+			return sig
+		}
+		// does the method call a helper whose (class name, method name) also exists in another package with the
+		// opposite answer to "does it assert"?
+		if m != nil && strings.HasPrefix(sig, "unknowntest-") {
+			for _, c := range m.Calls {
+				if c.Kind != testsmellgen.KindHelper {
+					continue
+				}
+				own := tbsHelperOf(f, c.Target)
+				for _, g := range t.Files {
+					if g == f || !g.IsTest() || g.Class != f.Class || own == nil {
+						continue
+					}
+					if other := tbsHelperOf(g, c.Target); other != nil && asserts(other) != asserts(own) {
+						if asserts(own) {
+							return "unknowntest-extra/asserting-helper-shares-class-and-method-name-with-non-asserting-helper-in-another-package"
+						}
+						return "unknowntest-missing/non-asserting-helper-shares-class-and-method-name-with-asserting-helper-in-another-package"
+					}
+				}
+			}
+		}
+		return sig + "+class-name-also-used-in-another-package"
 	}
 	// observed findings per file
 	obsByFile := map[string][]TbsFinding{}
@@ -534,13 +563,13 @@ func TbsCheck(t *testsmellgen.Tree, observed []TbsFinding, relOf func(fileName s
 				w, g := len(wantBy[m]), gotBy[m]
 				for k := w; k < g; k++ {
 					reported++
-					add(nameNote(f, tbsExtraSig(typ, f, m, w > 0)), "%s: %d %s expected in the file, %d reported; surplus one on method %s (line %d, annotated %s, %d calls: %s)",
+					add(nameNote(f, m, tbsExtraSig(typ, f, m, w > 0)), "%s: %d %s expected in the file, %d reported; surplus one on method %s (line %d, annotated %s, %d calls: %s)",
 						f.RelPath, len(want), typ, len(got), m.Name, m.DeclLine, m.AnnoClass(), len(m.Calls), tbsKinds(m))
 				}
 				for k := g; k < w; k++ {
 					reported++
 					e := wantBy[m][k]
-					add(nameNote(f, tbsMissingSig(typ, f, m, &e)), "%s: %d %s expected in the file, %d reported; none for method %s (line %d, annotated %s, %d calls: %s)",
+					add(nameNote(f, m, tbsMissingSig(typ, f, m, &e)), "%s: %d %s expected in the file, %d reported; none for method %s (line %d, annotated %s, %d calls: %s)",
 						f.RelPath, len(want), typ, len(got), m.Name, m.DeclLine, m.AnnoClass(), len(m.Calls), tbsKinds(m))
 				}
 			}
